@@ -34,14 +34,16 @@ def sh(cmd, cwd, timeout=3600, env=None):
 def main():
     pid = sys.argv[1]
     skip_suite = "--skip-suite" in sys.argv
-    wt = f"/tmp/wt-{pid}"
+    # --round 2: worktree /tmp/wt2-<ID>, kept as /verif/seeded/<ID>-2
+    rnd = sys.argv[sys.argv.index("--round") + 1] if "--round" in sys.argv else "1"
+    wt = f"/tmp/wt-{pid}" if rnd == "1" else f"/tmp/wt{rnd}-{pid}"
     sd = os.path.join(wt, "seeded")
     meta = {"property": pid, "worktree": wt}
     if not os.path.exists(os.path.join(sd, "patch.diff")):
         print("no seeded/patch.diff in", wt)
         return 2
     # a clean scratch worktree of /repo HEAD
-    scratch = f"/tmp/verify-{pid}"
+    scratch = f"/tmp/verify{rnd}-{pid}"
     subprocess.run(["git", "-C", "/repo", "worktree", "remove", "--force", scratch], capture_output=True)
     r = sh(["git", "-C", "/repo", "worktree", "add", "--detach", scratch, "HEAD"], "/")
     if r.returncode:
@@ -75,7 +77,7 @@ def main():
     finally:
         subprocess.run(["git", "-C", "/repo", "worktree", "remove", "--force", scratch], capture_output=True)
         shutil.rmtree(scratch, ignore_errors=True)
-    dest = f"/verif/seeded/{pid}"
+    dest = f"/verif/seeded/{pid}" if rnd == "1" else f"/verif/seeded/{pid}-{rnd}"
     if meta["confirmed"]:
         os.makedirs(dest, exist_ok=True)
         for f in ("patch.diff", "demo.py", "NOTES.md"):
